@@ -52,10 +52,91 @@ extern "C"
     char *igv_strlwr(char *);
     char *igv_strupr(char *);
     unsigned igv_block_sz(void);
+    unsigned igv_char_bit(void);
     int igv_char_is_signed(void);
     int igv_ct_libc(int which, int c);
     int igv_ct_igris(int which, int c);
     unsigned igv_plat2(int k);
+}
+
+#define NOSAN __attribute__((no_sanitize("address", "undefined")))
+
+// ROUND 3b (fragility): every function under test is a WEAK reference.  When a file of compat/libc/string
+// is moved / split / removed (C08_impl.c includes each file only if it exists) the check still builds and
+// the ops of exactly the missing functions report "missing-function" with a failing oracle.
+#pragma weak igv_memcpy
+#pragma weak igv_memmove
+#pragma weak igv_memset
+#pragma weak igv_memcmp
+#pragma weak igv_memchr
+#pragma weak igv_memrchr
+#pragma weak igv_strlen
+#pragma weak igv_strnlen
+#pragma weak igv_strcpy
+#pragma weak igv_strncpy
+#pragma weak igv_strlcpy
+#pragma weak igv_strcat
+#pragma weak igv_strncat
+#pragma weak igv_strcmp
+#pragma weak igv_strncmp
+#pragma weak igv_strcasecmp
+#pragma weak igv_strncasecmp
+#pragma weak igv_strchr
+#pragma weak igv_strrchr
+#pragma weak igv_strchrnul
+#pragma weak igv_strstr
+#pragma weak igv_strcasestr
+#pragma weak igv_strspn
+#pragma weak igv_strcspn
+#pragma weak igv_strpbrk
+#pragma weak igv_strtok
+#pragma weak igv_strtok_r
+#pragma weak igv_strdup
+#pragma weak igv_strndup
+#pragma weak igv_strlwr
+#pragma weak igv_strupr
+static const struct { const char *name; const void *fp; } FN_TABLE[] = {
+    {"memcpy", (const void *)&igv_memcpy},
+    {"memmove", (const void *)&igv_memmove},
+    {"memset", (const void *)&igv_memset},
+    {"memcmp", (const void *)&igv_memcmp},
+    {"memchr", (const void *)&igv_memchr},
+    {"memrchr", (const void *)&igv_memrchr},
+    {"strlen", (const void *)&igv_strlen},
+    {"strnlen", (const void *)&igv_strnlen},
+    {"strcpy", (const void *)&igv_strcpy},
+    {"strncpy", (const void *)&igv_strncpy},
+    {"strlcpy", (const void *)&igv_strlcpy},
+    {"strcat", (const void *)&igv_strcat},
+    {"strncat", (const void *)&igv_strncat},
+    {"strcmp", (const void *)&igv_strcmp},
+    {"strncmp", (const void *)&igv_strncmp},
+    {"strcasecmp", (const void *)&igv_strcasecmp},
+    {"strncasecmp", (const void *)&igv_strncasecmp},
+    {"strchr", (const void *)&igv_strchr},
+    {"strrchr", (const void *)&igv_strrchr},
+    {"strchrnul", (const void *)&igv_strchrnul},
+    {"strstr", (const void *)&igv_strstr},
+    {"strcasestr", (const void *)&igv_strcasestr},
+    {"strspn", (const void *)&igv_strspn},
+    {"strcspn", (const void *)&igv_strcspn},
+    {"strpbrk", (const void *)&igv_strpbrk},
+    {"strtok", (const void *)&igv_strtok},
+    {"strtok_r", (const void *)&igv_strtok_r},
+    {"strdup", (const void *)&igv_strdup},
+    {"strndup", (const void *)&igv_strndup},
+    {"strlwr", (const void *)&igv_strlwr},
+    {"strupr", (const void *)&igv_strupr},
+};
+NOSAN static bool fn_present(const std::string &fn)
+{
+    for (auto &e : FN_TABLE)
+        if (fn == e.name)
+        {
+            const void *volatile p = e.fp;
+            return p != nullptr;
+        }
+    return true;
 }
 
 // ------------------------------------------------------------ byte-exact access monitor (round 3)
@@ -69,7 +150,6 @@ extern "C"
 // every alignment, and it records the extent of all reads and writes per
 // buffer so that the oracle can compare them with the ranges the definition
 // allows (also when the argument lies inside a larger buffer).
-#define NOSAN __attribute__((no_sanitize("address", "undefined")))
 struct Zone
 {
     uintptr_t blo, bhi; // the malloc block
@@ -143,8 +223,10 @@ static std::string hashed(const uint8_t *p, size_t n)
     return b;
 }
 
-static_assert(sizeof(long) == 8 && sizeof(void *) == 8, "LP64 expected");
-static_assert((char)0xff < 0, "char is expected to be signed");
+// ROUND 3b: no static_assert on sizeof(long) / the signedness of char any more.  No result of any op
+// depends on them (the model is the LP64 / signed-char INSTANCE of the code; the ISO definitions the
+// oracle and the theorems state are the same on every platform), so they are reported as TAGS of the
+// ops `plat` / `plat2` and a build with -funsigned-char or another word size stays green.
 
 // ------------------------------------------------------------ allocation hook
 // strdup/strndup: `malloc` is a parameter of the check
@@ -163,6 +245,13 @@ extern "C" void *igv_malloc(size_t n)
     zone_add(g_blk, n ? n : 1, g_blk, n);
     g_mon = was;
     return g_blk;
+}
+
+extern "C" void *igv_calloc(size_t a, size_t b)
+{
+    void *p = igv_malloc(a * b);
+    if (p) memset(p, 0, a * b);
+    return p;
 }
 
 // ------------------------------------------------------------ buffers
@@ -365,9 +454,13 @@ static void run_op(const std::vector<std::string> &w_, const std::string &line_,
     if (fn == "reset") { o.result = "ok"; return; }
     if (fn == "plat2")
     {
+        // ROUND 3b: compared = what the property depends on (the width of `int`, the domain of the ctype
+        // functions and of the `int c` arguments, and the ASCII codes of the letters); sizeof(long) and
+        // sizeof(size_t) are TAGS: no result depends on them
         static const char *const nm[8] = {"long", "size_t", "int", "A", "Z", "a", "z", "delta"};
-        for (int k = 0; k < 8; k++) o.result += std::string(k ? " " : "") + nm[k] + "=" + std::to_string(igv_plat2(k));
+        for (int k = 2; k < 8; k++) o.result += std::string(k > 2 ? " " : "") + nm[k] + "=" + std::to_string(igv_plat2(k));
         o.tag("plat2");
+        for (int k = 0; k < 2; k++) o.tag((std::string(nm[k]) + "=" + std::to_string(igv_plat2(k))).c_str());
         return;
     }
     if (fn == "cttab" || fn == "ctype")
@@ -408,7 +501,12 @@ static void run_op(const std::vector<std::string> &w_, const std::string &line_,
     }
     if (fn == "plat")
     {
-        o.result = "long=" + std::to_string(igv_block_sz()) + " char=" + (igv_char_is_signed() ? "signed" : "unsigned");
+        // ROUND 3b: compared = CHAR_BIT (the model's Byte is BitVec 8); memcpy.c's file-local BLOCK_SZ (0 when the
+        // macro no longer exists) and the signedness of plain char are TAGS: no result depends on them
+        o.result = "char_bit=" + std::to_string(igv_char_bit());
+        o.tag("plat");
+        o.tag(("block_sz=" + std::to_string(igv_block_sz())).c_str());
+        o.tag(igv_char_is_signed() ? "char=signed" : "char=unsigned");
         return;
     }
     // ---- parse
@@ -471,6 +569,12 @@ static void run_op(const std::vector<std::string> &w_, const std::string &line_,
     };
     o.tag(fn.c_str());
     if (lg) o.tag("long");
+    if (!fn_present(fn))
+    {
+        o.result = "missing-function";
+        o.fail(fn + " is named by the property but none of the files of compat/libc/string the harness includes defines it");
+        return;
+    }
     for (size_t k = 0; k < bufs.size(); k++)
     {
         bytes v(bufs[k]->p, bufs[k]->p + bufs[k]->n);
@@ -706,7 +810,16 @@ static void run_op(const std::vector<std::string> &w_, const std::string &line_,
         exp = g_fail ? "N" : lg ? hashed((uint8_t *)e, strlen(e) + 1) : hex((uint8_t *)e, strlen(e) + 1);
         if (!r) ret = "N";
         else if ((uint8_t *)r != g_blk) ret = "not-the-malloc-block";
-        else ret = lg ? hashed(g_blk, g_blk_n) : hex(g_blk, g_blk_n);
+        else
+        {
+            // ROUND 3b: the definition fixes the STRING in the new block, not the size passed to malloc (an
+            // implementation may round it up): compared = the block up to and including its first NUL (the
+            // whole block when it has none); the size is a tag.  Too small a block is an ASan / monitor report.
+            size_t shown = g_blk_n;
+            for (size_t q = 0; q < g_blk_n; q++) if (!g_blk[q]) { shown = q + 1; break; }
+            if (shown != g_blk_n) o.tag("block>string");
+            ret = lg ? hashed(g_blk, shown) : hex(g_blk, shown);
+        }
         if (g_fail) o.tag("malloc-fails");
         free(e);
         free(g_blk);
